@@ -9,7 +9,7 @@ from __future__ import annotations
 from ..domains import IntSet
 from ..extract import Canon
 from ..spec import itu
-from .common import flatten, unwrap_message, leaf_table, project_term
+from .common import subst_term, flatten, unwrap_message, leaf_table, project_term
 from .c04 import infer_shape, text_chars
 
 WANT_TRIMS = ("trim_end", ("trim_end_matches", 64), "trim_start")    # outermost first
@@ -71,18 +71,17 @@ def run(ctx, chk):
                 if val is None:
                     chk.ob(False, "C13/fail/%s" % (codes,), "character decoder %s [%s] fails for 6-bit values %r" % (leaf, cfg, codes))
                     continue
+                # value by value (a match on ranges and a lookup table are the same decoder)
                 for lo, hi in codes.iv:
-                    if hi <= 31:
-                        want = ("lin", ((("sym", "arg0"), 1),), 64)
-                        name = "v+64"
-                    elif lo >= 32:
-                        want = ("sym", "arg0")
-                        name = "v"
-                    else:
-                        want = None
-                        name = "split at 32"
-                    chk.ob(val == want, "C13/table/%d-%d/%s" % (lo, hi, val), "6-bit values %d..%d decode to %r [%s, %s], expected %s" % (lo, hi, val, cfg, leaf, name),
-                           sample={"sixbit": [lo, hi], "ascii": name})
+                    bad = []
+                    for code in range(int(lo), int(hi) + 1):
+                        got = subst_term(val, {"arg0": code})
+                        want = ("const", code + 64 if code < 32 else code)
+                        if got != want:
+                            bad.append((code, got))
+                    chk.ob(not bad, "C13/table/%s" % (",".join("%d=%s" % (c, g[1] if g[0] == "const" else "?") for c, g in bad[:4]),),
+                           "6-bit values %r decode to %r [%s, %s], expected value+64 below 32 and the value itself from 32" % ([c for c, _ in bad[:8]], [g for _, g in bad[:4]], cfg, leaf),
+                           sample={"sixbit": [lo, hi], "ascii": "v+64 | v"})
             chk.ob(covered == IntSet.range(0, 63), "C13/table/coverage/%s" % covered, "character table covers %r, expected 0..63 [%s]" % (covered, cfg))
     chk.cov["configs"] = cfgs
     chk.cov["programs"] = len(cfgs)
